@@ -431,12 +431,12 @@ theorem ex_writable : Writable asciiChars (exLibOf (.str exMerged)) := by
   simp only [exLibOf, List.mem_cons, List.not_mem_nil, or_false] at hb
   rcases hb with rfl | rfl
   · refine ⟨by decide, by decide, by decide, by decide, by decide, by decide,
-      simple_of_all _ (by decide), by decide, ?_, by decide, Or.inr ⟨_, rfl⟩⟩
+      PrintParse.keyOK_of_simple _ (simple_of_all _ (by decide)), by decide, ?_, by decide, Or.inr ⟨_, rfl⟩⟩
     intro f hf
     simp only [List.mem_cons, List.not_mem_nil, or_false] at hf
     rcases hf with rfl | rfl
-    · exact ⟨simple_of_all _ (by decide), by decide, _, rfl, PrintParse.encVal_of_clean ex_merged_clean⟩
-    · exact ⟨simple_of_all _ (by decide), by decide, _, rfl,
+    · exact ⟨PrintParse.keyOK_of_simple _ (simple_of_all _ (by decide)), by decide, _, rfl, PrintParse.encVal_of_clean ex_merged_clean⟩
+    · exact ⟨PrintParse.keyOK_of_simple _ (simple_of_all _ (by decide)), by decide, _, rfl,
         PrintParse.encVal_of_clean (cleanVal_simple _ (simple_of_all _ (by decide)))⟩
   · exact ⟨cleanVal_simple _ (simple_of_all _ (by decide)), by decide⟩
 
